@@ -141,6 +141,15 @@ func (s *Server) Serve(l net.Listener) error {
 
 func (s *Server) handleConn(c *Conn) error {
 	s.locker.Lock()
+	select {
+	case <-s.done:
+		// Close or Shutdown was called after this connection had been
+		// accepted but before it got here: Close has already gone through
+		// s.conns and will never see it, so it must not be served.
+		s.locker.Unlock()
+		return c.conn.Close()
+	default:
+	}
 	s.conns[c] = struct{}{}
 	s.locker.Unlock()
 
